@@ -427,6 +427,13 @@ def predicate_object(spec, rng=None, quick=True):
                             (tt, hh, float(zz.flat[0])), (float(tt.flat[0]), float(hh.flat[0]), zz)]
                 for args in variants:
                     check_elementwise(bc, meth, args, shape, bad, val1)
+            # integer-typed coordinate arrays mixed with non-integer scalars (np.arange grids are common)
+            ti, zi = int_grid(times), int_grid(zs)
+            tq, hq, zq = frac_points(rng, times, False, 1)[0], rng.uniform(0.1, 6.0), frac_points(rng, zs, False, 1)[0]
+            for args in [(tq, hq, zi), (ti, hq, zq), (tq, np.arange(0, 6), zq), (ti, hq, zi[:len(ti)] if len(zi) >= len(ti) else zq)]:
+                arrs = [a for a in args if isinstance(a, np.ndarray)]
+                if arrs and all(a.size > 0 for a in arrs) and len({a.shape for a in arrs}) == 1:
+                    check_elementwise(bc, meth, args, arrs[0].shape, bad, val1)
         elif k == "Convective":
             for a in range(len(times)):
                 for c in range(len(zs)):
@@ -454,6 +461,11 @@ def predicate_object(spec, rng=None, quick=True):
                 zz = np.array([rng.uniform(zs[0] - 0.5, zs[-1] + 0.5) for _ in range(n)]).reshape(shape)
                 for args in [(tt, zz), (tt, float(zz.flat[0])), (float(tt.flat[0]), zz)]:
                     check_elementwise(bc, meth, args, shape, bad, val1)
+            ti, zi = int_grid(times), int_grid(zs)
+            tq, zq = frac_points(rng, times, False, 1)[0], frac_points(rng, zs, False, 1)[0]
+            for args in [(tq, zi), (ti, zq)]:
+                if args[0 if isinstance(args[0], np.ndarray) else 1].size > 0:
+                    check_elementwise(bc, meth, args, (args[0] if isinstance(args[0], np.ndarray) else args[1]).shape, bad, val1)
         else:
             g = zs if k == "Film" else times
             mk = (lambda x: (0.0, x)) if k == "Film" else (lambda x: (x,))
@@ -475,6 +487,12 @@ def predicate_object(spec, rng=None, quick=True):
                 xx = np.array([rng.uniform(g[0], g[-1]) for _ in range(n)]).reshape(shape)
                 check_elementwise(bc, meth, mk(xx), shape, bad, val1)
     return bad
+
+
+def int_grid(g):
+    """the integers inside [g[0], g[-1]] as an integer-typed array"""
+    lo, hi = int(np.ceil(g[0])), int(np.floor(g[-1]))
+    return np.arange(lo, hi + 1, dtype=int)
 
 
 def check_elementwise(bc, meth, args, shape, bad, val1):
